@@ -29,7 +29,39 @@ fn apply_params(ctx: &Ctx) {
     }
 }
 
+/// Panics are recorded (thread, location, message) instead of printed; checks that guard a call
+/// with `catch_unwind`/`join` read the record to build failure signatures.
+pub static PANICS: std::sync::Mutex<Vec<String>> = std::sync::Mutex::new(Vec::new());
+
+pub fn take_panics() -> Vec<String> {
+    std::mem::take(&mut *PANICS.lock().unwrap_or_else(|e| e.into_inner()))
+}
+
+fn install_panic_hook() {
+    let verbose = std::env::var("IPCV_VERBOSE").is_ok();
+    let default = std::panic::take_hook();
+    std::panic::set_hook(Box::new(move |info| {
+        let loc = info.location().map(|l| format!("{}:{}", l.file(), l.line())).unwrap_or_default();
+        let msg = info
+            .payload()
+            .downcast_ref::<&str>()
+            .map(|s| s.to_string())
+            .or_else(|| info.payload().downcast_ref::<String>().cloned())
+            .unwrap_or_else(|| "<non-string panic>".into());
+        let th = std::thread::current().name().unwrap_or("<unnamed>").to_string();
+        if let Ok(mut g) = PANICS.lock() {
+            if g.len() < 64 {
+                g.push(format!("[{}] {} at {}", th, msg, loc));
+            }
+        }
+        if verbose {
+            default(info);
+        }
+    }));
+}
+
 fn main() {
+    install_panic_hook();
     let args: Vec<String> = std::env::args().collect();
     if args.len() < 2 {
         eprintln!("usage: ipcv run|replay|helper ...");
